@@ -204,6 +204,10 @@ ANY_METHODS.update({
     "map": {"pure": False, "returns": SEQ(OBJ("RunResult")), "raises": ["BaseException"]},
     # a cache backend reached through an untyped parameter: the write may fail, returns nothing
     "set": {"pure": False, "returns": NONE_T, "raises": ["Exception"]},
+    # asyncio.Queue / asyncio.Event reached through untyped locals (assumed contracts A4)
+    "put_nowait": {"pure": False, "returns": NONE_T, "raises": []},
+    "get_nowait": {"pure": False, "returns": ANY, "raises": ["QueueEmpty"]},
+    "is_set": {"pure": False, "returns": BOOL, "raises": []},
     # networkx edge view `G.edges(data=True)`: read as a pure function of the graph giving a sequence of
     # (source name, target name, attribute dict) triples (assumed contract A4)
     "edges": {"pure": True, "returns": SEQ(FIXTUP(STR, STR, DICT(STR, ANY))), "raises": []},
